@@ -12,8 +12,8 @@
  * Tensors are provenance records; floating point is uninterpreted; the chunk tasks (the lambdas) have their own contracts. */
 #include "nv_base.h"
 enum { NV_ROLE_NONE = 0, NV_ROLE_BIAS = 1, NV_ROLE_WEIGHTS = 2, NV_ROLE_VECTOR = 3 };
-struct nv_tens { uint64_t id; int64_t size; int32_t role; uint64_t of; };   /* a tensor or a map: identity, size, (part `role` of tensor `of`) */
-struct nv_expr { uint64_t base; int32_t role; uint64_t of; };               /* Eigen expression: the tensor it is computed from */
+struct nv_tens { uint64_t id; int64_t size; int32_t role; uint64_t of; int64_t off, len; };   /* a tensor or a map: identity, size, (the view returned by accessor `role` of tensor `of`: coefficients [off, off + len) of it) */
+struct nv_expr { uint64_t base; int32_t role; uint64_t of; int64_t off, len; };               /* Eigen expression: the tensor (and the block of it) it is computed from */
 struct nv_samples { uint64_t id; int64_t size; };                            /* indices_t */
 struct nv_dsinfo { int64_t n_samples; uint64_t tdims; };                     /* dataset_t: samples(), target_dims() */
 struct nv_miter { struct nv_dsinfo m_dataset; struct nv_samples m_samples; uint64_t id; };   /* targets_ / flatten_iterator_t */
@@ -98,33 +98,48 @@ uint64_t nv_gx_b_from, nv_gx_W_from;         /* which tensors the bias / weights
 uint64_t nv_gx_b_writes, nv_gx_W_writes, nv_gx_W_updates;
 uint64_t nv_means; double nv_mean1, nv_mean2; uint64_t nv_mean_base_bad;
 uint64_t nv_part_ids;
-/* bias(x) / weights(x): the two parts of a parameter vector (maps onto its storage) */
-static struct nv_tens nv_part(const struct nv_tens* x, int32_t role, int64_t size)
-{ struct nv_tens t; t.id = nv_nondet_uint64_t(); t.size = size; t.role = role; t.of = x->id; return t; }
+/* bias(x) / weights(x): views of a block of the parameter vector.  WHICH block is not written here: the stub assumes exactly the clause list
+ * proved for every instantiation of the four accessors on back end B (specs/C09/parts_smt.py `clauses`, printed to C as NV_FACTS_BIAS /
+ * NV_FACTS_WEIGHTS over nv_off, nv_d0, nv_d1) and asserts their precondition (the accessors' own assert, compiled out under NDEBUG).
+ * The product m_tsize * m_isize is NAMED (nv_wsize == nv_prod2(m_tsize, m_isize), uninterpreted), never computed. */
+int64_t nv_wsize;
+int64_t __CPROVER_uninterpreted_nv_prod2(int64_t, int64_t);
+#ifdef NV_FACTS_BIAS    /* defined for the target linear_do_vgrad only (the gboost targets share this prelude and have no such calls) */
+static struct nv_tens nv_part_view(const struct nv_lfun* self, const struct nv_tens* x, int32_t which)
+{
+  struct nv_tens t; int64_t nv_off = nv_nondet_int64_t(), nv_d0 = nv_nondet_int64_t(), nv_d1 = nv_nondet_int64_t();
+  __CPROVER_assert(nv_wsize >= 0 && nv_wsize <= x->size && x->size - nv_wsize == self->m_tsize, "weights / bias precondition: x.size() == m_isize * m_tsize + m_tsize");
+  if (which == NV_ROLE_BIAS) { __CPROVER_assume(NV_FACTS_BIAS); t.len = nv_d0; }
+  else { __CPROVER_assume(NV_FACTS_WEIGHTS); t.len = __CPROVER_uninterpreted_nv_prod2(nv_d0, nv_d1); }
+  t.id = nv_nondet_uint64_t(); t.size = t.len; t.role = which; t.of = x->id; t.off = nv_off; return t;
+}
+#endif
+int64_t nv_gx_b_off, nv_gx_b_len, nv_gx_W_off, nv_gx_W_len;   /* the blocks of gx the two gradient parts were stored into */
 /* map = tensor (copies the values into the storage the map views) */
 static void nv_part_assign(struct nv_tens* dst, const struct nv_tens* src)
 {
   __CPROVER_assert(nv_reduces == 1, "gradient: read from the accumulators only after the reduction");
   __CPROVER_assert(dst->of == nv_gx_id, "gradient: written into the caller's gradient buffer gx");
-  if (dst->role == NV_ROLE_BIAS) { nv_gx_b_from = src->id; nv_gx_b_writes = nv_gx_b_writes + 1; }
-  if (dst->role == NV_ROLE_WEIGHTS) { nv_gx_W_from = src->id; nv_gx_W_writes = nv_gx_W_writes + 1; }
+  if (dst->role == NV_ROLE_BIAS) { nv_gx_b_from = src->id; nv_gx_b_writes = nv_gx_b_writes + 1; nv_gx_b_off = dst->off; nv_gx_b_len = dst->len; }
+  if (dst->role == NV_ROLE_WEIGHTS) { nv_gx_W_from = src->id; nv_gx_W_writes = nv_gx_W_writes + 1; nv_gx_W_off = dst->off; nv_gx_W_len = dst->len; }
 }
 /* Eigen coefficient-wise expressions: only what they are computed FROM is tracked (formulas: reg_smt.py) */
-static struct nv_expr nv_e_of(const struct nv_tens* t) { struct nv_expr e; e.base = t->of; e.role = t->role; e.of = t->of; return e; }
+static struct nv_expr nv_e_of(const struct nv_tens* t) { struct nv_expr e; e.base = t->of; e.role = t->role; e.of = t->of; e.off = t->off; e.len = t->len; return e; }
+#define NV_IS_WEIGHTS_BLOCK(e) ((e).off == 0 && (e).len == nv_wsize)     /* the first m_tsize * m_isize coefficients */
 static struct nv_expr nv_e_unary(struct nv_expr e) { return e; }
 static struct nv_expr nv_e_scale(double s, struct nv_expr e) { return e; }
 static struct nv_expr nv_e_div(struct nv_expr e, int64_t n) { return e; }
 static void nv_arr_add(struct nv_expr dst, struct nv_expr src)
 {
-  __CPROVER_assert(dst.of == nv_gx_id && dst.role == NV_ROLE_WEIGHTS, "regulariser gradient: added to the weights part of gx");
-  __CPROVER_assert(src.of == nv_x_id && src.role == NV_ROLE_WEIGHTS, "regulariser gradient: computed from the weights part of x");
+  __CPROVER_assert(dst.of == nv_gx_id && dst.role == NV_ROLE_WEIGHTS && NV_IS_WEIGHTS_BLOCK(dst), "regulariser gradient: added to the weights part of gx");
+  __CPROVER_assert(src.of == nv_x_id && src.role == NV_ROLE_WEIGHTS && NV_IS_WEIGHTS_BLOCK(src), "regulariser gradient: computed from the weights part of x");
   __CPROVER_assert(nv_gx_W_writes == 1, "regulariser gradient: added after the data gradient was stored");
   nv_gx_W_updates = nv_gx_W_updates + 1;
 }
 static double nv_e_mean(struct nv_expr e)
 {
   double m = nv_nondet_double();
-  __CPROVER_assert(e.of == nv_x_id && e.role == NV_ROLE_WEIGHTS, "regulariser value: computed from the weights part of x");
+  __CPROVER_assert(e.of == nv_x_id && e.role == NV_ROLE_WEIGHTS && NV_IS_WEIGHTS_BLOCK(e), "regulariser value: computed from the weights part of x");
   nv_means = nv_means + 1;
   if (nv_means == 1) nv_mean1 = m; else nv_mean2 = m;
   return m;
@@ -135,10 +150,14 @@ static double nv_e_mean(struct nv_expr e)
 #define NV_CONTRACT_linear_do_vgrad \
 __CPROVER_requires(__CPROVER_is_fresh(self, sizeof(*self)) && NV_PROTOCOL_INIT && nv_x_id == x.id && nv_gx_id == gx.id && x.id != gx.id && gx.size >= 0) \
 __CPROVER_requires(nv_gx_b_writes == 0 && nv_gx_W_writes == 0 && nv_gx_W_updates == 0 && nv_means == 0) \
-__CPROVER_assigns(NV_PROTOCOL_ASSIGNS, nv_gx_b_from, nv_gx_W_from, nv_gx_b_writes, nv_gx_W_writes, nv_gx_W_updates, nv_means, nv_mean1, nv_mean2) \
+__CPROVER_requires(self->m_isize >= 0 && self->m_tsize >= 0 && nv_wsize == __CPROVER_uninterpreted_nv_prod2(self->m_tsize, self->m_isize) && nv_wsize >= 0) \
+__CPROVER_requires(x.size >= nv_wsize && x.size - nv_wsize == self->m_tsize && (gx.size == 0 || gx.size == x.size))   /* do_vgrad's own asserts (NDEBUG) */ \
+__CPROVER_assigns(NV_PROTOCOL_ASSIGNS, nv_gx_b_from, nv_gx_W_from, nv_gx_b_writes, nv_gx_W_writes, nv_gx_W_updates, nv_means, nv_mean1, nv_mean2, nv_gx_b_off, nv_gx_b_len, nv_gx_W_off, nv_gx_W_len) \
 __CPROVER_ensures(NV_PROTOCOL_DONE) \
 __CPROVER_ensures(gx.size > 0 ? (nv_gx_b_writes == 1 && nv_gx_b_from == nv_reduced.m_gb1.id && nv_gx_W_writes == 1 && nv_gx_W_from == nv_reduced.m_gW1.id) : (nv_gx_b_writes == 0 && nv_gx_W_writes == 0 && nv_gx_W_updates == 0)) \
 __CPROVER_ensures(gx.size > 0 ==> nv_gx_W_updates == (self->m_l1reg > 0.0 ? 1 : 0) + (self->m_l2reg > 0.0 ? 1 : 0)) \
+__CPROVER_ensures(gx.size > 0 ==> (nv_gx_b_off == nv_wsize && nv_gx_b_len == self->m_tsize && nv_gx_b_off + nv_gx_b_len == gx.size))   /* the bias gradient lands in the bias block of gx: the LAST tsize coefficients */ \
+__CPROVER_ensures(gx.size > 0 ==> (nv_gx_W_off == 0 && nv_gx_W_len == nv_wsize))                                                     /* the weights gradient in the FIRST tsize * isize */ \
 __CPROVER_ensures(NV_SAME(__CPROVER_return_value, NV_LIN_VALUE))
 #define NV_LOOP_linear_do_vgrad_1 \
 __CPROVER_assigns(__begin1, nv_clears, nv_g_clears, nv_acc_g.idx, nv_acc_other.idx) \
@@ -169,10 +188,10 @@ __CPROVER_ensures(nv_vgrad_calls == 1 && nv_vgrad_gx == gx.id && NV_SAME(__CPROV
 struct nv_dims { int64_t d0; uint64_t tail; };
 static struct nv_dims nv_cat_dims(int64_t d0, uint64_t tail) { struct nv_dims d; d.d0 = d0; d.tail = tail; return d; }
 static struct nv_tens nv_map_tensor(const struct nv_tens* x, struct nv_dims d)
-{ struct nv_tens t; t.id = nv_nondet_uint64_t(); t.size = d.d0; t.role = NV_ROLE_VECTOR; t.of = x->id; return t; }
+{ struct nv_tens t; t.id = nv_nondet_uint64_t(); t.size = d.d0; t.role = NV_ROLE_VECTOR; t.of = x->id; t.off = 0; t.len = d.d0; return t; }
 uint64_t nv_gx_writes, nv_gx_from; double nv_gx_div; uint64_t nv_mean_of;
 struct nv_exprd { uint64_t base; double div; };
-static struct nv_expr nv_e_vec(const struct nv_tens* t) { struct nv_expr e; e.base = t->id; e.role = NV_ROLE_VECTOR; e.of = t->id; return e; }
+static struct nv_expr nv_e_vec(const struct nv_tens* t) { struct nv_expr e; e.base = t->id; e.role = NV_ROLE_VECTOR; e.of = t->id; e.off = 0; e.len = t->size; return e; }
 static struct nv_exprd nv_e_divd(struct nv_expr e, double d) { struct nv_exprd r; r.base = e.base; r.div = d; return r; }
 static void nv_vec_assign(struct nv_tens* dst, struct nv_exprd e)
 {
